@@ -169,20 +169,33 @@ func expandChunks(e AEv, s *sampler, o concOpts) []AEv {
 	if e.M != "OnArray" || width == 8 {
 		total = len(e.Bytes)
 	}
-	// split the elements into 1..3 chunks (bit arrays: non-final chunks are multiples of 8)
+	// split the elements into 1..3 chunks (bit arrays: non-final chunks are multiples of 8;
+	// text: chunks end on character boundaries); one time in three the array is closed by an
+	// explicit empty final chunk
 	var chunks []int
 	rem := total
+	boundaryOK := func(n int) bool {
+		if !utf8Text(e.AT) {
+			return true
+		}
+		used := total - rem
+		return used+n >= len(e.Bytes) || e.Bytes[used+n]&0xc0 != 0x80
+	}
 	for rem > 0 && len(chunks) < 2 && s.rnd.Intn(2) == 0 {
 		n := s.rnd.Intn(rem + 1)
 		if width == 1 {
 			n -= n % 8
 		}
+		for n > 0 && !boundaryOK(n) {
+			n--
+		}
 		chunks = append(chunks, n)
 		rem -= n
 	}
-	chunks = append(chunks, rem)
-	if utf8Text(e.AT) {
-		chunks = []int{total} // keep characters whole: one chunk, data events split at will
+	if rem > 0 && s.rnd.Intn(3) == 0 {
+		chunks = append(chunks, rem, 0)
+	} else {
+		chunks = append(chunks, rem)
 	}
 	off := 0
 	for ci, n := range chunks {
